@@ -168,21 +168,18 @@ Section CellCodec.
     end.
 
   (* ---------- what comes back ---------- *)
-  Definition canon_err (e : nat) : nat := if Nat.eqb e E_NIMPL then E_ERROR else e.
   Definition canon_text (t : text) : text := decode (xesc t).
   Definition canon_fval (here : text) (v : fval) : fval :=
     match v with
-    | FErr e _ _ => FErr (canon_err e) here (display e)   (* origin and message are not stored in the file *)
+    | FErr e _ _ => FErr e here (display e)   (* origin and message are not stored in the file *)
     | FText t => FText (canon_text t)
     | _ => v
     end.
   Definition canonical (here : text) (c : cell) : cell :=
     match c with
-    | CErr e s => CErr (canon_err e) s
     | CStrText t s => CStrText (canon_text t) s
     | CFormula f s v => CFormula f s (canon_fval here v)
     | CArray f s w h k v => CArray f s w h k (canon_fval here v)
-    | CSpill s a (SErr e) => CSpill s a (SErr (canon_err e))
     | CSpill s a (SText t) => CSpill s a (SText (canon_text t))
     | _ => c
     end.
@@ -213,19 +210,17 @@ Section CellCodec.
     | _ => true
     end.
 
-  (* nothing is lost: no NIMPL error, no colliding text, error origin/message already canonical *)
+  (* nothing is lost: no colliding text, error origin/message already canonical *)
   Definition fval_exact (here : text) (v : fval) : bool :=
     match v with
-    | FErr e o m => negb (Nat.eqb e E_NIMPL) && text_eqb o here && text_eqb m (display e)
+    | FErr e o m => text_eqb o here && text_eqb m (display e)
     | FText t => negb (collides t)
     | _ => true
     end.
   Definition exact (here : text) (c : cell) : bool :=
     match c with
-    | CErr e _ => negb (Nat.eqb e E_NIMPL)
     | CStrText t _ => negb (collides t)
     | CFormula _ _ v | CArray _ _ _ _ _ v => fval_exact here v
-    | CSpill _ _ (SErr e) => negb (Nat.eqb e E_NIMPL)
     | CSpill _ _ (SText t) => negb (collides t)
     | _ => true
     end.
